@@ -18,6 +18,7 @@ type opDef struct {
 	tok   string // token name: A, B, C
 	level int
 	right bool
+	text  string // how the level is written (decimal, possibly with leading zeros)
 }
 
 type opTable struct {
@@ -46,7 +47,11 @@ func (t opTable) loxText() string {
 		if o.right {
 			a = "@right"
 		}
-		alts = append(alts, fmt.Sprintf("e %s e %s(%d)", o.tok, a, o.level))
+		txt := o.text
+		if txt == "" {
+			txt = fmt.Sprint(o.level)
+		}
+		alts = append(alts, fmt.Sprintf("e %s e %s(%s)", o.tok, a, txt))
 	}
 	if t.shape == 1 {
 		for i, j := 0, len(alts)-1; i < j; i, j = i+1, j-1 {
@@ -95,7 +100,13 @@ func enumOpTables() []opTable {
 				}
 				var ops []opDef
 				for i := 0; i < k; i++ {
-					ops = append(ops, opDef{tok: toks[i], level: levels[i] * levelScale(lv), right: am&(1<<(levels[i]-1)) != 0})
+					od := opDef{tok: toks[i], level: levels[i] * levelScale(lv), right: am&(1<<(levels[i]-1)) != 0}
+					if lv%4 == 3 {
+						// levels 9, 10, 11 written "9", "010", "0011": decimal whatever the zeros
+						od.level = 8 + levels[i]
+						od.text = []string{"9", "010", "0011"}[levels[i]-1]
+					}
+					ops = append(ops, od)
 				}
 				for shape := 0; shape < 3; shape++ {
 					out = append(out, opTable{ops: ops, shape: shape})
@@ -313,5 +324,5 @@ func TestOperatorGrouping(t *testing.T) {
 		}
 		run(nil)
 	})
-	rep.done(t, true, fmt.Sprintf("%d operator tables (1..3 binary operators, every assignment of levels and per-level associativity, three layouts of the rule, level numbers 1..3 scaled by 1, 7 or 10) x every operator sequence of length <= %d (with parentheses around every contiguous operand group for sequences <= 3)", len(tables), maxOps))
+	rep.done(t, true, fmt.Sprintf("%d operator tables (1..3 binary operators, every assignment of levels and per-level associativity, three layouts of the rule, level numbers 1..3 scaled by 1, 7 or 10, or written 9, 010, 0011) x every operator sequence of length <= %d (with parentheses around every contiguous operand group for sequences <= 3)", len(tables), maxOps))
 }
